@@ -4,6 +4,9 @@ reports only the rules of its own property)."""
 
 UNITS = {
     "A.rec": {"pkg": "motion"},
+    "A.cont": {"pkg": "motion"},
+    "A.bad": {"pkg": "motion"},
+    "A.fault": {"pkg": "motion"},
 }
 
 _EXPL = "exploration"
@@ -28,4 +31,19 @@ PROPS = {
     "C04": {"level": _EXPL, "level_text": "seeded search over motion bit-strings x wall-clock trajectories (boundaries, jumps, midnight) x disk/create outcomes; start iff all conjuncts", "level_note": _NOTE_A, "units": ["A.rec"], "quick_s": 20, "thorough_s": 420,
             "technique": "deterministic simulation: seeded wall-clock trajectories, disk/create faults, start-iff rule",
             "required_probes": ["refused-start-window", "refused-start-disk", "refused-start-create"]},
+    "C12": {"level": _FE, "units": ["A.fault"], "quick_s": 25, "thorough_s": 480,
+            "level_text": "for every sampled event sequence every single placement of a failing sink call is enumerated (plus seeded multi-fault plans); protocol monitor on three sinks, recover() around every call, bounded liveness after the last fault",
+            "level_note": _NOTE_A,
+            "technique": "deterministic simulation with exhaustive single-fault placement per sampled history, protocol monitors, bounded-liveness oracle",
+            "required_probes": ["liveness-after-fault"]},
+    "C13": {"level": _EXPL, "units": ["A.bad"], "quick_s": 20, "thorough_s": 420,
+            "level_text": "seeded histories with byte-wise built raw frames; classification, never-recorded, clean end, differential (bad frame deleted) and telemetry/pixel fidelity rules",
+            "level_note": _NOTE_A,
+            "technique": "deterministic simulation: seeded bad-frame placement relative to triggers/recordings, differential re-execution",
+            "required_probes": ["bad-frame-during-recording", "bad-frame-while-idle", "differential-idle"]},
+    "C17": {"level": _EXPL, "units": ["A.cont"], "quick_s": 20, "thorough_s": 420,
+            "level_text": "seeded histories executed four ways and compared; tiling/size rule on the continuous sink, 21-consecutive-frames rule on the test sink",
+            "level_note": _NOTE_A,
+            "technique": "deterministic simulation: seeded histories, paired re-executions (with/without requests, recorder, window)",
+            "required_probes": ["continuous-file-complete", "test-recording-complete", "test-recording-during-motion-recording", "window-configured", "camera-reset"]},
 }
